@@ -332,7 +332,7 @@ def ob_array(name, nval=1, seed=0):
         scope["T"] = T
         r1 = eval(call, {}, scope)
         r1 = [list(c) for c in (r1 if isinstance(r1, tuple) else [r1])]
-        kept = all(a is b for a, b in zip(T, orig))
+        after = list(T)
         r2 = eval(call, {}, scope)
         r2 = [list(c) for c in (r2 if isinstance(r2, tuple) else [r2])]
         scal = []
@@ -347,7 +347,7 @@ def ob_array(name, nval=1, seed=0):
         if wrapper_exc(e):
             res["inconclusive"].append("array evaluation not carried by the wrapper: %r" % (e,))
         else:
-            res["violations"].append(dict(key="%s.array.exc" % spec.get("fn", name), soft=True, desc="%s on a time grid raised %r" % (name, e),
+            res["violations"].append(dict(key="%s.array.exc" % name, soft=True, desc="%s on a time grid raised %r" % (name, e),
                                           replay_src=_arr_replay(name, nval, spec, call)))
         res["status"] = "violation" if res["violations"] else "inconclusive"
         return res
@@ -357,10 +357,10 @@ def ob_array(name, nval=1, seed=0):
         for j in range(2):
             goals.append(("scalar", term(r1[i][j]) == term(scal[j][i])))
             goals.append(("repeat", term(r2[i][j]) == term(r1[i][j])))
-    res["obligations"] = len(goals) + 1
-    bad = None if kept else "untouched"
-    if kept:
-        res["discharged"] += 1
+    for a_, b_ in zip(after, orig):
+        goals.append(("untouched", term(a_) == term(b_)))
+    res["obligations"] = len(goals)
+    bad = None
     for kind, g in goals:
         norm = UFNorm(assum, timeout_ms=10000)
         v, m = norm.prove(g, timeout_ms=30000)
@@ -374,7 +374,7 @@ def ob_array(name, nval=1, seed=0):
     tw = UFNorm(assum, timeout_ms=5000).prove(term(r1[0][0]) == term(scal[1][0]))[0]
     res["twin"] = "violated" if tw == "sat" else ("passed" if tw == "unsat" else "unknown")
     if bad:
-        res["violations"].append(dict(key="%s.array.%s" % (spec.get("fn", name), bad), soft=True,
+        res["violations"].append(dict(key="%s.array.%s" % (name, bad), soft=True,
                                       desc="%s on a time grid: %s" % (name, {"untouched": "the caller's array was modified", "scalar": "differs from the scalar evaluation",
                                                                               "repeat": "second evaluation on the same array differs"}[bad]),
                                       replay_src=_arr_replay(name, nval, spec, call)))
